@@ -41,6 +41,12 @@ META = dict(
                "scipy_minimize as programs over named objects, the footprint of simulate, the kind of copy of the settings) from the "
                "python ast; Api/SrcProg*.v prove for every instance that they denote the scripts of Api/ApiCalls.v with the theorems' shape "
                "predicates (C13_src_*), and every recorded call is checked inside Coq to be an execution of the generated program. "
+               "Flow check on the generated programs (extension 2, Api/SrcFlow*.v): for every instance the generated MCMC / estimate programs pass the "
+               "flow check of C13_history_independent when what the initialisation functions read is determined by kept variables and kept + data + "
+               "individual variables are closed / the variables read by estimate depend on kept variables, t and the given parameters only "
+               "(C13_src_mcmc_history_independent, _repeat_same_answer, C13_src_estimate_history_independent); the generated scipy program is rejected "
+               "as soon as the per-individual initialisation reads a variable kept + data variables do not determine (C13_src_scipy_flow_refuted, F6); "
+               "these hypotheses are evaluated inside Coq on every recorded instance (Api/SrcFlowTie.v). "
                "Settings object (extension): algo/settings.py is modelled (Api/Settings.v: nested update, resolution, save/load, heap of "
                "dictionary objects); C13_settings_*: explicit key wins / default kept / nested update / idempotence, ANY write sequence "
                "through the deep copy at any depth leaves the caller's settings as they were; rule regenerated from the source "
